@@ -158,6 +158,23 @@ CLAIMED = {
        'enabled and the idle flags, queue and answered set must agree at every observation point; BlockingDeque by random operation sequences.',
   ref='6/C19', technique='Lean 4 proof (inductive invariant of the pool transition system over all interleavings; BlockingDeque invariant) + trace-replay correspondence vs real RelayPool/SmtpRelayClient/HttpRelayClient',
   note='Partial: termination under fairness is not proved; per-connection protocol discipline is monitored, not proved.'),
+ 'C12': dict(
+  text='PARTIAL (stage 1 of the queue model: storage calls atomic inside a section, pool spawns do not block — bounded pools are tied by the '
+       'correspondence with a lenient scheduler label and by the monitors only; environment assumption Calm: the storage does not announce a '
+       'message while enqueue() is between the write and the hand-off of that message or while a _dequeue task for it is pending — without it '
+       'the property is false of model and code: theorem never_early_needs_calm, known finding). Lean theorems over Model/Sched.lean for every '
+       'interleaving of {enqueue write / hand-off, announce (load, wait), tick, scheduler turn (asked for or spurious), _dequeue, relay outcome, '
+       '_retry_later with any backoff answer incl. 0 and None, _remove_stored, flush}: one inductive invariant (16 clauses: id sets = ids of the '
+       'timetable, entries carry the stored timestamp, active ids have neither entry nor task, timetable sorted, scheduler timer at or before '
+       'every entry unless flagged, ...) gives never_early (no hand-off that no flush asked for before the stored due time), due_is_dispatched '
+       '(a due entry enables the scheduler turn, which creates its _dequeue task), never_forgotten (every known stored message is being handed '
+       'off, in flight, finishing, dequeuing, or in the timetable with the loop due to wake by then), flush_returns_and_dispatches (flush is one '
+       'always-enabled step; every waiting message gets a task; id set emptied), timetable_ids_exact, one_attempt_in_flight. Tied to the code by '
+       'replaying, label by label, traces of the real Queue (scheduler started, DictStorage, virtual clock, held relay outcomes, wait() fed by '
+       'the harness, holds on store.get / store.write) through the model: every label enabled; now, timetable, id sets, stored timestamps, wake '
+       'flag and scheduler timer equal at every observation point.',
+  ref='6/C12', technique='Lean 4 proof (inductive invariant of the scheduler transition system over all interleavings, virtual time) + trace-replay correspondence vs real slimta.queue.Queue under a virtual clock',
+  note='Partial: atomic-store / non-blocking-spawn stage; Calm environment assumption (negation witnessed, known finding).'),
 }
 def main():
     props = [json.loads(l) for l in open(os.path.join(V, 'properties.jsonl'))]
